@@ -37,7 +37,7 @@ def coq_build():
     if not os.path.exists(os.path.join(COQ, "Makefile")):
         rc, out = sh("coq_makefile -f _CoqProject -o Makefile", cwd=COQ)
         if rc != 0: return False, out
-    rc, out = sh("timeout 3000 make -j%d" % NPROC, cwd=COQ)
+    rc, out = sh("ulimit -v 16000000; timeout 1200 make -j8", cwd=COQ)
     return rc == 0, out
 
 def coq_scan():
